@@ -28,6 +28,16 @@ type Sched struct {
 	schedG  uint64
 	stop    bool
 	wake    chan struct{}
+	// Priority switches from a uniform choice among the parked tasks to
+	// priority scheduling: every task gets a random priority when first seen,
+	// the highest parked priority runs, and at random change points the task
+	// just chosen drops below everything else. One step in eight still
+	// chooses uniformly so that a task polling for another's progress cannot
+	// starve it.
+	Priority    bool
+	ChangeEvery int
+	prio        map[string]int
+	low         int
 	// OnStep, when set, is called with the released task before it runs.
 	OnStep func(t *Task, nparked int)
 	// Overrun is set when MaxStep was exceeded and the scheduler let go.
@@ -190,7 +200,9 @@ func (s *Sched) Step() bool {
 	// nothing else runs now (every goroutine is durably blocked), so the
 	// parked list cannot change while the tape is consulted without the lock
 	i := 0
-	if n > 1 {
+	if s.Priority {
+		i = s.pickPriority(n)
+	} else if n > 1 {
 		i = s.Choose(n, "sched")
 	}
 	s.mu.Lock()
@@ -213,6 +225,40 @@ func (s *Sched) Step() bool {
 	}
 	t.ch <- struct{}{}
 	return true
+}
+
+// pickPriority is the priority discipline; it runs while every goroutine is
+// blocked, so s.parked is stable and sorted by name.
+func (s *Sched) pickPriority(n int) int {
+	if s.prio == nil {
+		s.prio = map[string]int{}
+		s.low = 1 << 20
+		if s.ChangeEvery == 0 {
+			s.ChangeEvery = []int{16, 64, 256, 1024}[s.Choose(4, "sched-change-every")]
+		}
+	}
+	for _, t := range s.parked[:n] {
+		if _, ok := s.prio[t.Name]; !ok {
+			s.prio[t.Name] = 1<<21 + s.Choose(1<<16, "sched-prio")
+		}
+	}
+	if n == 1 {
+		return 0
+	}
+	if s.Choose(8, "sched-mix") == 0 {
+		return s.Choose(n, "sched")
+	}
+	best := 0
+	for i, t := range s.parked[:n] {
+		if s.prio[t.Name] > s.prio[s.parked[best].Name] {
+			best = i
+		}
+	}
+	if s.Choose(s.ChangeEvery, "sched-change") == 0 {
+		s.low--
+		s.prio[s.parked[best].Name] = s.low
+	}
+	return best
 }
 
 // RunUntilQuiet steps until nothing is parked any more.
